@@ -118,8 +118,10 @@ func buildOverlay(spec *CheckSpec) (map[string][]byte, map[string][]byte, error)
 		sym[filepath.Join(pkgDir(pkg), "zz_verif_intrinsics.go")] = []byte(strings.Replace(string(intr), "package PKG", "package "+pkg, 1))
 		var sb strings.Builder
 		sb.WriteString("package " + pkg + "\n\nvar vEntries = map[string]func(){\n")
+		seenEntry := map[string]bool{}
 		for _, e := range spec.Entries {
-			if e.Pkg == pkg {
+			if e.Pkg == pkg && !seenEntry[e.Func] {
+				seenEntry[e.Func] = true
 				fmt.Fprintf(&sb, "\t%q: %s,\n", e.Func, e.Func)
 			}
 		}
